@@ -24,6 +24,8 @@ def world_fn(existing):
         w.project('proj')
         w.user('user')
         w.project('proj2')
+        w.consumer_type('INSTANCE')
+        w.consumer_type('MIGRATION')
         w.provider(1, generation=0)
         w.provider(2, generation=0)
         for p in (1, 2):
@@ -46,15 +48,20 @@ def cgen_of(ctx, name, mode):
     return ctx.int(name)
 
 
-def put(n, target, mode, version='1.36', project='proj', user='user'):
+def put(n, target, mode, version='1.36', project='proj', user='user',
+        ctype=None):
     name = 'put%d' % n if project == 'proj' and user == 'user' else \
         'put%d(%s,%s)' % (n, project, user)
+    if ctype:
+        name += '[%s]' % ctype
 
     def fn(ctx, w):
         body = {'allocations': {U(target): {'resources': {
             'VCPU': ctx.int('amt%d' % n, 1)}}},
             'project_id': project, 'user_id': user,
             'consumer_generation': cgen_of(ctx, 'g%d' % n, mode)}
+        if ctype:
+            body['consumer_type'] = ctype
         return app.call('PUT', '/allocations/' + CONS(1), body,
                         version=version)
     return Req(name, fn, consumer=1, cgen=('g%d' % n, mode), kind='put')
@@ -236,6 +243,11 @@ def families(tier):
         make_family('existing/put+put/deadlock+rollback', True,
                     [put(1, 1, 'int'), put(2, 2, 'int')],
                     fault_kinds=('deadlock+rollback',)),
+        # 1.38: creators / writers that name different consumer types (the
+        # loser's type must not stick)
+        make_family('new/put-null[INSTANCE]+put-null[MIGRATION]@1.38', False,
+                    [put(1, 1, 'null', version='1.38', ctype='INSTANCE'),
+                     put(2, 1, 'null', version='1.38', ctype='MIGRATION')]),
         # identifier spaces are independent: the consumer carries the uuid
         # of the provider it allocates from
         make_family('existing/put+put/consumer-uuid=provider-uuid', True,
@@ -250,6 +262,13 @@ def families(tier):
             make_family('existing/put+post/consumer-uuid=provider-uuid',
                         True, [put(1, 1, 'int'), post(2, 1, 'int')],
                         alias={1: U(1)}),
+            make_family('existing/put[INSTANCE]+put[MIGRATION]@1.38', True,
+                        [put(1, 1, 'int', version='1.38', ctype='INSTANCE'),
+                         put(2, 2, 'int', version='1.38',
+                             ctype='MIGRATION')]),
+            make_family('new/put-null[MIGRATION]@1.38+put-null@1.36', False,
+                        [put(1, 1, 'null', version='1.38',
+                             ctype='MIGRATION'), put(2, 1, 'null')]),
             make_family('existing/post_empty+put', True,
                         [post_empty(1, 'int'), put(2, 2, 'int')]),
             make_family('existing/put_empty+put_empty', True,
